@@ -858,10 +858,8 @@ namespace riddle
         {
             tk = next();
             std::vector<const statement *> stmnts;
-            do
-            {
+            while (!match(RBRACE_ID))
                 stmnts.emplace_back(_statement());
-            } while (!match(RBRACE_ID));
             switch (tk->sym)
             {
             case LBRACKET_ID:
